@@ -33,5 +33,43 @@ def key_obligations(prefix):
     ]
 
 
+def ex_cells(repo):
+    st = Source(repo, STORAGE)
+    sv = Source(repo, SERVICE)
+    ex = st.item(r'^pub fn extract_raw_data'); ex.sub(r'\.concat\(\)', '.mconcat()')
+    bq = sv.item(r'^fn build_query_options')
+    bq.sub(r'\.concat\(\)', '.mconcat()'); bq.sub(r'vec!\[\s*0xff\s*;\s*([^\]]+)\]', r'ff_fill(\1)')
+    gc = sv.method(r'^impl BlockFilterRpc for BlockFilterRpcImpl', 'get_cells'); gc.prefix = 'impl BlockFilterRpcImpl {\n'
+    cc = sv.method(r'^impl BlockFilterRpc for BlockFilterRpcImpl', 'get_cells_capacity'); cc.suffix = '\n}'
+    return [st.consts(r'^pub const LAST_STATE_KEY: &str = [^;]*;')[0], sv.consts(r'^const MAX_PREFIX_SEARCH_SIZE: usize = [^;]*;')[0],
+            st.item(r'^pub enum CellType'), st.item(r'^pub enum Key<'), st.item(r'^pub enum KeyPrefix', attrs=True), st.item(r"^impl<'a> Key<'a>"),
+            st.item(r"^impl<'a> From<Key<'a>> for Vec<u8>"), st.item(r'^fn append_key'), ex, bq, sv.item(r'^fn build_filter_options'), gc, cc]
+
+
+CELL_CUTS = ['RocksDB snapshot -> read-only sorted array of <= 3 index rows (ordered iteration from a seek key in both directions, point lookups)',
+             'packed / JSON types -> plain structs (scripts: 1-byte code hash, 1-byte hash type, <= 2 bytes of args; <= 2 outputs per transaction; hashes 1-byte identifiers)',
+             'vec![0xff; 65535 - args_len] -> the first 19 bytes of it (longer than any continuation of a model key: same order against every key)',
+             '.concat() -> .mconcat() (textual)', 'request structs SearchKey / SearchKeyFilter / ScriptType / Order declared by the model (data declarations)']
+
+
 def obligations():
-    return key_obligations('O13.1')
+    B3 = '<= 3 index rows of arbitrary key space / script / position in key order, 2 stored transactions x <= 2 outputs, every search key (prefix search incl.), both orders'
+    F = 'every filter combination (script prefix, script length, data length, capacity, block range) with arbitrary, also empty / inverted, ranges'
+    FS = dict(field_sensitivity=True)
+    return key_obligations('O13.1') + [
+        KModelOb('O13.2-cells-order', 'cells', 'cells_order', 'get_cells (real text, with build_query_options / Key::into_vec): with a limit that does not cut, the result is exactly the entries whose '
+                 'script continues the searched script, in key order (descending = reverse of ascending), each with the right out-point / output / data / block number / tx index; last_cursor is the '
+                 'key of the last entry', ex_cells, B3 + '; no filter; limit >= 3', cuts=CELL_CUTS, timeout=1500, mem_gb=12, min_covers=2, weight=6, tiers=('quick',), **FS),
+        KModelOb('O13.3-cells-pages', 'cells', 'cells_pages_order', 'get_cells (real text): a first page of limit l1 followed by a page read from its last_cursor yields the first min(l1 + l2, matches) '
+                 'matching entries exactly once in key order, in both orders', ex_cells, B3 + '; no filter; l1 in 1..2, any l2 >= 1', cuts=CELL_CUTS, timeout=1800, mem_gb=16, min_covers=2,
+                 weight=7, tiers=('quick',), **FS),
+        KModelOb('O13.2-cells-filters', 'cells', 'cells_filters_small', 'get_cells (real text, with build_filter_options): each filter removes exactly the entries outside it', ex_cells,
+                 '<= 2 index rows; ' + F, cuts=CELL_CUTS, timeout=1500, mem_gb=12, min_covers=1, weight=5, tiers=('quick',), rustflags='--cfg cells_small', **FS),
+        KModelOb('O13.4-capacity-sum', 'cells', 'capacity_sum_small', 'get_cells_capacity (real text) = capacity sum of exactly the cells get_cells returns for the same key, reported with the stored tip',
+                 ex_cells, '<= 2 index rows; ' + F, cuts=CELL_CUTS, timeout=1500, mem_gb=12, min_covers=1, weight=4, tiers=('quick',), rustflags='--cfg cells_small', **FS),
+        KModelOb('O13.2-cells-exact-t', 'cells', 'cells_full', 'as O13.2 with order, prefix search and every filter symbolic at once', ex_cells, B3 + '; ' + F, cuts=CELL_CUTS, timeout=3400, mem_gb=20,
+                 min_covers=2, weight=8, tiers=('thorough',), **FS),
+        KModelOb('O13.3-cells-pages-t', 'cells', 'cells_pages', 'as O13.3 with every filter symbolic', ex_cells, B3 + '; ' + F, cuts=CELL_CUTS, timeout=3400, mem_gb=24, min_covers=2, weight=9,
+                 tiers=('thorough',), **FS),
+        KModelOb('O13.4-capacity-sum-t', 'cells', 'capacity_sum', 'as O13.4 with 3 rows', ex_cells, B3 + '; ' + F, cuts=CELL_CUTS, timeout=3400, mem_gb=20, min_covers=1, weight=8, tiers=('thorough',), **FS),
+    ]
